@@ -951,12 +951,15 @@ func leftBitshiftSmallInt[T SimpleInt](i SmallInt, other T) Value {
 	if other < 0 {
 		return SmallInt(0).ToValue()
 	}
-	complementaryShift := i >> (bitsize - other)
+	var complementaryShift SmallInt
+	if other <= bitsize {
+		complementaryShift = i >> (bitsize - other)
+	}
 	if other > bitsize || (i < 0 && complementaryShift != -1) || (i > 0 && complementaryShift != 0) {
 		// overflow
 		iBig := big.NewInt(int64(i))
 		iBig.Lsh(iBig, uint(other))
-		return Ref(ToElkBigInt(iBig))
+		return ToElkBigInt(iBig).Normalize()
 	}
 	return (i << other).ToValue()
 }
